@@ -241,6 +241,13 @@ async def dict_case(part, names):
     await b.send(b'b CREATE bobs\r\n')
     msg = b'Subject: bob\r\n\r\nsecret\r\n'
     await b.send(b'b APPEND bobs {%d+}\r\n' % len(msg) + msg + b'\r\n')
+    # bob owns mailboxes under the very names alice is going to use (where they can be created), and is subscribed to every other one:
+    # a name must not reach another user's mailbox of the same name either
+    names = ['bobs', 'INBOX'] + list(names)
+    for k, name in enumerate(names[2:]):
+        await b.send(b'b CREATE ' + mutf7.wire_name(name) + b'\r\n')
+        if k % 2 == 0:
+            await b.send(b'b SUBSCRIBE ' + mutf7.wire_name(name) + b'\r\n')
 
     async def bob_view():
         out = [await b.send(b'b LIST "" *\r\n'), await b.send(b'b LSUB "" *\r\n')]
